@@ -69,6 +69,7 @@ const (
 	numUpdateHooksCBErrors       = "update_hooks_callback_errors"
 	numUpdateHooksErrors         = "update_hooks_errors"
 	numCommitHooks               = "commit_hooks"
+	numRollbackHooks             = "rollback_hooks"
 	cdcDroppedEvents             = "dropped_cdc_events"
 )
 
@@ -176,6 +177,7 @@ func ResetStats() {
 	stats.Add(numUpdateHooksCBErrors, 0)
 	stats.Add(numUpdateHooksErrors, 0)
 	stats.Add(numCommitHooks, 0)
+	stats.Add(numRollbackHooks, 0)
 	stats.Add(cdcDroppedEvents, 0)
 }
 
@@ -547,6 +549,39 @@ func (db *DB) RegisterCommitHook(hook CommitHookCallback) error {
 	f := func(driverConn any) error {
 		conn := driverConn.(*sqlite3.SQLiteConn)
 		conn.RegisterCommitHook(cb)
+		return nil
+	}
+
+	conn, err := db.rwDB.Conn(context.Background())
+	if err != nil {
+		return err
+	}
+	defer conn.Close()
+	if err := conn.Raw(f); err != nil {
+		return err
+	}
+	return nil
+}
+
+// RollbackHookCallback is a callback function that is called whenever a transaction
+// is rolled back on the database.
+type RollbackHookCallback func()
+
+// RegisterRollbackHook registers a callback that is called whenever a transaction
+// is rolled back on the database, explicitly or because a statement failed outside
+// an explicit transaction. If a callback is already registered, it is replaced.
+// If hook is nil, the callback is removed.
+func (db *DB) RegisterRollbackHook(hook RollbackHookCallback) error {
+	var cb func()
+	if hook != nil {
+		cb = func() {
+			stats.Add(numRollbackHooks, 1)
+			hook()
+		}
+	}
+	f := func(driverConn any) error {
+		conn := driverConn.(*sqlite3.SQLiteConn)
+		conn.RegisterRollbackHook(cb)
 		return nil
 	}
 
